@@ -59,4 +59,57 @@ MUTANTS = [
   (["C03"], "benign-take-islice-list", "lazy_stream.py",
    "    return constructor(it.islice(self._data, max(n, 0)))",
    "    return constructor(list(it.islice(self._data, max(n, 0))))", "silent"),
+
+  # ---- C01 ------------------------------------------------------------------
+  (["C01"], "rbinary-operands-swapped", "lazy_stream.py",
+   "        return Stream(xmap(op_func, iter(other), iter(self)))",
+   "        return Stream(xmap(op_func, iter(self), iter(other)))", "caught"),
+  (["C01"], "rbinary-scalar-swapped", "lazy_stream.py",
+   "      return Stream(xmap(lambda a: op_func(other, a), iter(self)))",
+   "      return Stream(xmap(lambda a: op_func(a, other), iter(self)))",
+   "caught"),
+  (["C01"], "binary-zip-longest", "lazy_stream.py",
+   "        return Stream(xmap(op_func, iter(self), iter(other)))\n"
+   "      return Stream(xmap(lambda a: op_func(a, other), iter(self)))",
+   "        return Stream(op_func(a, b) for a, b in it.zip_longest(iter(self),"
+   " iter(other), fillvalue=0))\n"
+   "      return Stream(xmap(lambda a: op_func(a, other), iter(self)))",
+   "caught"),
+  (["C01"], "tuple-operand-treated-as-scalar", "lazy_stream.py",
+   "      if isinstance(other, Iterable):\n"
+   "        return Stream(xmap(op_func, iter(self), iter(other)))",
+   "      if isinstance(other, Iterable) and not isinstance(other, tuple):\n"
+   "        return Stream(xmap(op_func, iter(self), iter(other)))", "caught"),
+  (["C01"], "one-dunder-from-wrong-operator", "lazy_core.py",
+   "    self.func = getattr(operator, \"__{}__\".format(name[self.rev:]))",
+   "    self.func = getattr(operator, \"__{}__\".format(name[self.rev:]))\n"
+   "    if name == \"rfloordiv\":\n      self.func = operator.truediv",
+   "caught"),
+  (["C01"], "unary-skips-first", "lazy_stream.py",
+   "      return Stream(xmap(op_func, iter(self)))",
+   "      return Stream(xmap(op_func, it.islice(iter(self), 0, None, 1)))",
+   "silent"),
+  (["C01"], "elementwise-tuple-becomes-list", "lazy_misc.py",
+   "        return type_arg(data)\n",
+   "        return list(data) if type_arg is tuple else type_arg(data)\n",
+   "caught"),
+  (["C01", "C02"], "elementwise-materialises-generators", "lazy_misc.py",
+   "        if isinstance(arg, SOME_GEN_TYPES):\n          return data",
+   "        if isinstance(arg, SOME_GEN_TYPES):\n          return iter(list(data))",
+   "caught"),
+  (["C01"], "dB20-uses-10", "lazy_math.py",
+   "  return 20 * math.log10(abs(data)) if data != 0 else -inf",
+   "  return 10 * math.log10(abs(data)) if data != 0 else -inf", "caught"),
+  (["C01"], "log-negative-base-e-only", "lazy_math.py",
+   "      return cmath.log(x, base)", "      return cmath.log(x)", "caught"),
+  (["C01"], "stream-getattr-skips", "lazy_stream.py",
+   "    return Stream(getattr(a, name) for a in self._data)",
+   "    return Stream(getattr(a, name) for a in self._data if a is not None"
+   " and a == a)", "silent"),
+  (["C01"], "stream-call-drops-kwargs", "lazy_stream.py",
+   "    return Stream(a(*args, **kwargs) for a in self._data)",
+   "    return Stream(a(*args[:0], **kwargs) for a in self._data)", "caught"),
+  (["C01"], "midi2freq-a4-is-68", "lazy_midi.py",
+   "MIDI_A4 = 69   # MIDI Pitch number", "MIDI_A4 = 68   # MIDI Pitch number",
+   "caught"),
 ]
